@@ -27,6 +27,9 @@ const verifRoot = "/docker/registry/v2"
 type verifParts struct {
 	kind                          int
 	repo, tag, hex, uuid, alg, off string
+	// shard: the two-character directory above a blob; "" means hex[:2] (what
+	// the registry writes). The parsers accept any two [0-9a-z] there.
+	shard string
 }
 
 func verifBuild(p verifParts) string {
@@ -45,7 +48,11 @@ func verifBuild(p verifParts) string {
 	case verifKLayerData:
 		return r + "/_layers/sha256/" + p.hex + "/data"
 	case verifKBlobData:
-		return verifRoot + "/blobs/sha256/" + p.hex[:2] + "/" + p.hex + "/data"
+		shard := p.shard
+		if shard == "" {
+			shard = p.hex[:2]
+		}
+		return verifRoot + "/blobs/sha256/" + shard + "/" + p.hex + "/data"
 	case verifKUploadData:
 		return r + "/_uploads/" + p.uuid + "/data"
 	case verifKUploadStartedAt:
@@ -289,12 +296,14 @@ func VerifFindingGetRepoRepositoriesComponent() {
 	kinds := []int{verifKTagsDir, verifKLayerLink, verifKUploadData, verifKTagCurrent}
 	kind := kinds[verif.Choice("kind", len(kinds))]
 	p := verifParts0(kind)
-	b := verifRepoBytes(1)
-	switch verif.Choice("repo_shape", 3) {
+	b := verifRepoBytes(2)
+	switch verif.Choice("repo_shape", 4) {
 	case 0:
-		p.repo = string(b) + "/repositories"
+		p.repo = string(b[:1]) + "/repositories"
 	case 1:
-		p.repo = "repositories/" + string(b)
+		p.repo = "repositories/" + string(b[:1])
+	case 2:
+		p.repo = string(b[:1]) + "/repositories/" + string(b[1:])
 	default:
 		p.repo = "repositories"
 	}
